@@ -71,6 +71,8 @@ static bool take_arg(char *arg) {
   return false;
 }
 
+static StringArray idirafter;
+
 static void add_default_include_paths(char *argv0) {
   // We expect that chibicc-specific include files are installed
   // to ./include relative to argv[0].
@@ -84,6 +86,10 @@ static void add_default_include_paths(char *argv0) {
   // Keep a copy of the standard include paths for -MMD option.
   for (int i = 0; i < include_paths.len; i++)
     strarray_push(&std_include_paths, include_paths.data[i]);
+
+  // -idirafter directories are searched after the standard ones.
+  for (int i = 0; i < idirafter.len; i++)
+    strarray_push(&include_paths, idirafter.data[i]);
 }
 
 static void define(char *str) {
@@ -139,8 +145,6 @@ static void parse_args(int argc, char **argv) {
     if (take_arg(argv[i]))
       if (!argv[++i])
         usage(1);
-
-  StringArray idirafter = {};
 
   for (int i = 1; i < argc; i++) {
     if (!strcmp(argv[i], "-###")) {
@@ -303,7 +307,7 @@ static void parse_args(int argc, char **argv) {
     }
 
     if (!strcmp(argv[i], "-idirafter")) {
-      strarray_push(&idirafter, argv[i++]);
+      strarray_push(&idirafter, argv[++i]);
       continue;
     }
 
@@ -369,9 +373,6 @@ static void parse_args(int argc, char **argv) {
 
     strarray_push(&input_paths, argv[i]);
   }
-
-  for (int i = 0; i < idirafter.len; i++)
-    strarray_push(&include_paths, idirafter.data[i]);
 
   if (input_paths.len == 0)
     error("no input files");
